@@ -58,16 +58,11 @@ func lockPairing(p *ir.Program, r *report.R, files map[string]bool) {
 		rel := map[string]bool{}      // mutex+kind released by a plain call
 		deferred := map[string]bool{} // mutex+kind released by a defer (here or in a deferred closure)
 		ir.InstrsDeep(f, func(g *ssa.Function, in ssa.Instruction) {
-			call, ok := in.(ssa.CallInstruction)
+			op, ok := lockOpOf(in)
 			if !ok {
 				return
 			}
-			k, isAcq := mutexCallKind(ir.CalleeName(call))
-			if k == "" {
-				return
-			}
-			m := Arg(call, 0)
-			_, isDefer := in.(*ssa.Defer)
+			k, isAcq, m, isDefer := op.Kind, op.Acquire, op.Mtx, op.Deferred
 			switch {
 			case isAcq && g == f && !isDefer:
 				acq = append(acq, site{f, in, m, k})
@@ -91,12 +86,11 @@ func lockPairing(p *ir.Program, r *report.R, files map[string]bool) {
 			checked = true
 			nLocks++
 			isRel := func(in ssa.Instruction) bool {
-				call, ok := in.(*ssa.Call)
-				if !ok {
+				if _, isCall := in.(*ssa.Call); !isCall {
 					return false
 				}
-				k, isAcq := mutexCallKind(ir.CalleeName(call))
-				return k == a.k && !isAcq && Arg(call, 0) == a.mtx
+				op, ok := lockOpOf(in)
+				return ok && op.Kind == a.k && !op.Acquire && op.Mtx == a.mtx
 			}
 			if found, hit, tr := ir.FindPath(ir.PathQuery{From: ir.At(a.in), Target: ir.IsReturn, Avoid: isRel}); found {
 				bad = append(bad, fmt.Sprintf("%s locked at %s is still held at the return %s (blocks %v)", a.mtx, p.InstrPos(a.in), p.InstrPos(hit), tr))
